@@ -74,6 +74,10 @@ pub fn c18_case(rep: &mut Report, seed: u64, idx: u64, verbose: bool) {
         let port = world.new_device_port(&format!("dev#{}", addr));
         let mut core = SlaveCore::new(addr, ident, vec![0x11], 1, 1);
         core.is_dp_slave = dp;
+        // (a station may answer the status request with a negative status -- it still answers)
+        if rng.chance(1, 4) {
+            core.status_reply_code = *rng.pick(&[1u8, 2, 3, 9, 12]);
+        }
         core.present = rng.chance(2, 3);
         let core = Rc::new(RefCell::new(core));
         let pct = Rc::new(RefCell::new(0u64));
